@@ -142,7 +142,6 @@ impl TplLitTypeItem {
                 let vs = vs
                     .into_iter()
                     .map(|it| it.regex_expr())
-                    .filter(|it| !it.is_empty())
                     .collect::<Vec<_>>();
                 let vs = vs.join("|");
                 format!("({})", vs)
